@@ -41,6 +41,7 @@ type c05Case struct {
 }
 
 func c05Run(c c05Case) *vlib.Failure {
+	defer vlib.Guard("C05", c, nil)()
 	m := vmNew()
 	boot := m.newRoot()
 	m.cr3 = boot.Address()
